@@ -11,7 +11,7 @@ From Coquelicot Require Coquelicot.
 Import Coquelicot.Hierarchy Coquelicot.RInt.
 From OM Require Import Base.Ops Base.OpsR Base.Vec3 Gen.GenQuadTables Geom.Kernels Geom.Quadrature
                        Geom.QuadTablesProofs Geom.QuadProofs Geom.KernelProofs
-                       Geom.QuadSymmetry Geom.AdaptiveProofs Geom.EdgeIntegral Geom.SolidAngleValues Geom.GreenFallback.
+                       Geom.QuadSymmetry Geom.AdaptiveProofs Geom.EdgeIntegral Geom.SolidAngleValues Geom.GreenFallback Geom.AdaptiveQuadratic.
 From Coq Require Import Permutation.
 Import ListNotations.
 
@@ -223,6 +223,22 @@ Theorem adaptive_exact_on_polynomials : forall ord (f : vec3 R -> R) (I : vec3 R
     Rabs (integrate OpsR (RS_scalar OpsR) ord depth tol f t0 t1 t2 - I t0 t1 t2) <= / IZR (10 ^ 14) * K * area2 OpsR t0 t1 t2.
 Proof. exact adaptive_exact_on_polynomials_lemma. Qed.
 Print Assumptions adaptive_exact_on_polynomials.
+
+(* degree <= 2, UNCONDITIONAL (no integral, additivity or norm hypothesis): f(x) = c + g.x + x.Q.x.  The bounds Ma, Mq are on the
+   Bernstein coefficients g.s_i and q(s_i,s_j) of the ROOT triangle only; they are inherited by every sub-triangle (de Casteljau:
+   convex combinations), so the band is uniform over the refinement tree.  quad_I is area2 (c/2 + sum g.s_i/6 + sum_{i<=j} q(s_i,s_j)/12). *)
+Theorem adaptive_exact_on_polynomials_degree2 : forall c q11 q22 q33 q12 q13 q23 (g : vec3 R) ord depth tol Ma Mq t0 t1 t2,
+  quad_P q11 q22 q33 q12 q13 q23 g Ma Mq t0 t1 t2 ->
+  Rabs (integrate OpsR (RS_scalar OpsR) ord depth tol (quadf c q11 q22 q33 q12 q13 q23 g) t0 t1 t2
+        - quad_I c q11 q22 q33 q12 q13 q23 g t0 t1 t2)
+    <= / IZR (10 ^ 14) * (Rabs c + 3 * Ma + 9 * Mq) * area2 OpsR t0 t1 t2.
+Proof. exact adaptive_exact_on_quadratics_lemma. Qed.
+Print Assumptions adaptive_exact_on_polynomials_degree2.
+
+(* the invariant is satisfiable on every triangle (take the maxima), e.g. *)
+Example quad_P_satisfiable :
+  quad_P 1 0 0 0 0 0 (mkV 0 0 1) 0 1 (mkV 0 0 0) (mkV 1 0 0) (mkV 0 1 0).
+Proof. unfold quad_P, bil, dot; cbn. rewrite ?Rmult_0_l, ?Rmult_0_r, ?Rmult_1_l, ?Rplus_0_l, ?Rplus_0_r, ?Rabs_R0, ?Rabs_R1. lra. Qed.
 
 (* ---------------------------------------------------------------- kernels *)
 Theorem D3_components_sum_to_solid_angle : forall v0 v1 v2 x : vec3 R,
